@@ -16,21 +16,33 @@
    (the unknown-tool handler's closure); running it = the invoke / stream derivations of Model/Tools.v;
    convTools = conv_tools + index (last tool of a name wins); parallelRunToolCall = every task run,
    a panic of a goroutine task stored as the panic error, a panic of the inline task escaping —
-   which is what tools_par_invoke_refines / tools_par_stream_refines prove of the protocol for the
-   goroutine program read from the source.
+   which is what the protocol of Model/ToolsPar.v yields for the goroutine program read from the source, whatever the
+   schedule (gen_parallel_invoke_is_protocol / gen_parallel_stream_is_protocol below: the protocol run on the generated
+   runToolCallTaskByInvoke / ByStream hands the scan exactly the cells of the tasks this semantics returns).
    A changed index, field, bound, order or test in the Go source makes a theorem here stop compiling. *)
 From Coq Require Import Permutation.
-From Eino Require Import Base.Util Model.Tools Model.ToolsOpts Model.ToolsPar Model.ToolsGenLib Proofs.Tools.
+From Eino Require Import Base.Util Model.Tools Model.ToolsOpts Model.ToolsPar Model.ToolsGenLib Proofs.Tools Proofs.ToolsPar.
 From Eino Require Gen.ToolNode.
 Local Open Scope string_scope.
 Local Open Scope list_scope.
 
 (* ---- slices and counted loops ---------------------------------------------------------------- *)
+(* (arithmetic by hand: no decision procedure in the dependencies of the agreement theorems) *)
+Lemma zn_not_neg : forall n : nat, (Z.of_nat n <? 0)%Z = false.
+Proof. intros. apply Z.ltb_ge. apply Nat2Z.is_nonneg. Qed.
+
+Lemma zn_snoc : forall A (l : list A) x, (Z.of_nat (List.length l) + 1)%Z = Z.of_nat (List.length (l ++ [x])).
+Proof. intros. rewrite app_length. simpl. rewrite Nat.add_1_r, Nat2Z.inj_succ. reflexivity. Qed.
+
+Lemma len_snoc : forall A B (l : list A) (m : list B) x y,
+  List.length l = List.length m -> List.length (l ++ [x]) = List.length (m ++ [y]).
+Proof. intros. rewrite !app_length. simpl. rewrite H. reflexivity. Qed.
+
 Lemma sl_get_at : forall A (pre : list A) x post,
   sl_get (pre ++ x :: post) (Z.of_nat (List.length pre)) = Ok x.
 Proof.
-  intros. unfold sl_get. replace (Z.of_nat (List.length pre) <? 0)%Z with false by (symmetry; apply Z.ltb_ge; lia).
-  rewrite Nat2Z.id. rewrite nth_error_app2 by lia. rewrite Nat.sub_diag. reflexivity.
+  intros. unfold sl_get. rewrite zn_not_neg.
+  rewrite Nat2Z.id. rewrite nth_error_app2 by apply Nat.le_refl. rewrite Nat.sub_diag. reflexivity.
 Qed.
 
 Lemma set_nth_at : forall A (pre : list A) x y post,
@@ -40,10 +52,10 @@ Proof. induction pre; intros; simpl; [reflexivity|]. rewrite IHpre. reflexivity.
 Lemma sl_set_at : forall A (pre : list A) x y post,
   sl_set (pre ++ x :: post) (Z.of_nat (List.length pre)) y = Ok (pre ++ y :: post).
 Proof.
-  intros. unfold sl_set. replace (Z.of_nat (List.length pre) <? 0)%Z with false by (symmetry; apply Z.ltb_ge; lia).
+  intros. unfold sl_set. rewrite zn_not_neg.
   rewrite Nat2Z.id. replace (Nat.ltb (List.length pre) (List.length (pre ++ x :: post))) with true.
   - rewrite set_nth_at. reflexivity.
-  - symmetry. apply Nat.ltb_lt. rewrite app_length. simpl. lia.
+  - symmetry. apply Nat.ltb_lt. rewrite app_length. simpl. apply Nat.lt_add_pos_r. apply Nat.lt_0_succ.
 Qed.
 
 Lemma sl_upd_at : forall A (pre : list A) x f post,
@@ -53,19 +65,59 @@ Proof. intros. unfold sl_upd. rewrite sl_get_at. simpl. apply sl_set_at. Qed.
 Lemma sl_get_nat : forall A (l : list A) j,
   sl_get l (Z.of_nat j) = match nth_error l j with Some a => Ok a | None => Panic end.
 Proof.
-  intros. unfold sl_get. replace (Z.of_nat j <? 0)%Z with false by (symmetry; apply Z.ltb_ge; lia).
+  intros. unfold sl_get. rewrite zn_not_neg.
   rewrite Nat2Z.id. reflexivity.
 Qed.
 
 Lemma sl_make_len : forall A (z : A) (l : nat), sl_make z (Z.of_nat l) = Ok (repeat z l).
 Proof.
-  intros. unfold sl_make. replace (Z.of_nat l <? 0)%Z with false by (symmetry; apply Z.ltb_ge; lia).
+  intros. unfold sl_make. rewrite zn_not_neg.
   rewrite Nat2Z.id. reflexivity.
 Qed.
 
 Lemma for_up_len : forall S n (body : Z -> S -> res S) st,
   for_up 0%Z (Z.of_nat n) body st = for_up_n n 0%Z body st.
 Proof. intros. unfold for_up. rewrite Z.sub_0_r, Nat2Z.id. reflexivity. Qed.
+
+(* a counted loop that fills a zero-initialised slice element by element, with early exit on an error:
+   whatever the body looks like, if one iteration at index |pre| turns [done ++ zero :: zeros] into
+   [done ++ b :: zeros] with b = step |pre| x (or fails like step), the loop is the monadic map of step *)
+Fixpoint mapM_idx {A B} (step : nat -> A -> res B) (i : nat) (l : list A) : res (list B) :=
+  match l with
+  | [] => Ok []
+  | a :: r => do b <- step i a; do bs <- mapM_idx step (S i) r; Ok (b :: bs)
+  end.
+
+Lemma for_up_n_fill : forall {A B : Type} (zero : B) (step : nat -> A -> res B) (l : list A)
+    (body : Z -> list B -> res (list B)),
+  (forall pre x post done, l = pre ++ x :: post -> List.length done = List.length pre ->
+     body (Z.of_nat (List.length pre)) (done ++ zero :: repeat zero (List.length post))
+     = do b <- step (List.length pre) x; Ok (done ++ b :: repeat zero (List.length post))) ->
+  forall post pre done, l = pre ++ post -> List.length done = List.length pre ->
+  for_up_n (List.length post) (Z.of_nat (List.length pre)) body (done ++ repeat zero (List.length post))
+  = res_map (fun bs => done ++ bs) (mapM_idx step (List.length pre) post).
+Proof.
+  intros A B zero step l body Hbody. induction post as [|x post IH]; intros pre done El Hl.
+  - simpl. rewrite app_nil_r. reflexivity.
+  - cbn [List.length repeat for_up_n mapM_idx]. rewrite (Hbody pre x post done El Hl).
+    destruct (step (List.length pre) x) as [b|e|]; cbn [res_bind res_map]; try reflexivity.
+    replace (done ++ b :: repeat zero (List.length post)) with ((done ++ [b]) ++ repeat zero (List.length post))
+      by (rewrite <- app_assoc; reflexivity).
+    replace (Z.of_nat (List.length pre) + 1)%Z with (Z.of_nat (List.length (pre ++ [x]))) by (symmetry; apply zn_snoc).
+    rewrite (IH (pre ++ [x]) (done ++ [b])).
+    + rewrite app_length. cbn [List.length]. rewrite Nat.add_1_r.
+      destruct (mapM_idx step (S (List.length pre)) post); cbn [res_map res_bind]; try reflexivity.
+      rewrite <- app_assoc. reflexivity.
+    + rewrite <- app_assoc. exact El.
+    + apply len_snoc. exact Hl.
+Qed.
+
+Lemma mapM_idx_const : forall {A B C} (g : A -> res B) (f : B -> C) l i,
+  mapM_idx (fun _ a => res_map f (g a)) i l = res_map (map f) (res_mapM g l).
+Proof.
+  induction l as [|a l IH]; intros i; [reflexivity|]. cbn [mapM_idx res_mapM]. rewrite IH.
+  destruct (g a); cbn [res_map res_bind]; try reflexivity. destruct (res_mapM g l); reflexivity.
+Qed.
 
 (* ---- the option list --------------------------------------------------------------------------- *)
 Section Options.
@@ -132,6 +184,37 @@ Proof.
   - destruct (String.eqb n name); reflexivity.
 Qed.
 
+(* the indexes map after convTools: one assignment per tool, the latest first *)
+Fixpoint idx_list {A} (i : nat) (tl : list (string * A)) : gomap Z :=
+  match tl with
+  | [] => []
+  | (n, _) :: r => idx_list (S i) r ++ [(n, Z.of_nat i)]
+  end.
+
+Lemma alist_get_app : forall A k (l1 l2 : list (string * A)),
+  alist_get k (l1 ++ l2) = match alist_get k l1 with Some a => Some a | None => alist_get k l2 end.
+Proof.
+  induction l1 as [|[k' a] l1 IH]; intros l2; simpl; [reflexivity|].
+  destruct (String.eqb k k'); [reflexivity|apply IH].
+Qed.
+
+Lemma idx_list_get : forall A (tl : list (string * A)) i name,
+  map_get (idx_list i tl) name = option_map (fun j => Z.of_nat (i + j)) (index_of tl name).
+Proof.
+  unfold map_get. induction tl as [|[n a] r IH]; intros i name; simpl; [reflexivity|].
+  rewrite alist_get_app, IH. destruct (index_of r name) as [j|]; simpl.
+  - rewrite Nat.add_succ_r. reflexivity.
+  - rewrite String.eqb_sym. destruct (String.eqb n name); simpl; [rewrite Nat.add_0_r|]; reflexivity.
+Qed.
+
+Lemma idx_list_snoc : forall A (tl : list (string * A)) i n a,
+  idx_list i (tl ++ [(n, a)]) = (n, Z.of_nat (i + List.length tl)) :: idx_list i tl.
+Proof.
+  induction tl as [|[n' a'] r IH]; intros i n a; simpl.
+  - rewrite Nat.add_0_r. reflexivity.
+  - rewrite IH. simpl. rewrite Nat.add_succ_r. reflexivity.
+Qed.
+
 Section Agree.
   Variable P : Type.
   Notation TOPT := (topt P).
@@ -142,11 +225,32 @@ Section Agree.
   (* a runnable packer: the one convTools made for a tool (its kind and implementation), or one made from
      a function (newRunnablePacker(f, nil, nil, nil, _): invokable only) *)
   Inductive RPm : Type :=
-  | RP_tool (k : tkind) (ti : toolimpl O)
-  | RP_fn (f : CTX -> string -> O -> tres).
+  | RP_pack (i : option (CTX -> string -> O -> tres)) (s : option (CTX -> string -> O -> sres)).
 
-  Definition m_newRunnablePacker (f : CTX -> string -> O -> tres) (_ _ _ : option unit) (_ : bool) : option RPm :=
-    Some (RP_fn f).
+  (* newRunnablePacker(i, s, nil, nil, _): the packer of an invoke function and / or a stream function *)
+  Definition m_newRunnablePacker (i : option (CTX -> string -> O -> tres)) (s : option (CTX -> string -> O -> sres))
+             (_ _ : option unit) (_ : bool) : option RPm :=
+    Some (RP_pack i s).
+
+  (* the tools as tool.BaseTool values: Info, the run interfaces the value implements, its run methods *)
+  Definition m_BT_Info (d : BT) (_ : CTX) : res ToolInfo :=
+    if td_info_ok d then Ok (mk_ToolInfo (td_name d)) else Err E_TOOLINFO.
+  Definition m_assert_StreamableTool (d : BT) : option BT :=
+    match td_kind d with Some KStr | Some KBoth => Some d | _ => None end.
+  Definition m_assert_InvokableTool (d : BT) : option BT :=
+    match td_kind d with Some KInv | Some KBoth => Some d | _ => None end.
+  Definition inv_fn (ti : toolimpl O) : CTX -> string -> O -> tres := fun _ arg opts => ti_inv ti opts arg.
+  Definition str_fn (ti : toolimpl O) : CTX -> string -> O -> sres := fun _ arg opts => ti_str ti opts arg.
+  Definition m_BT_StreamableRun (o : option BT) : option (CTX -> string -> O -> sres) := option_map (fun d => str_fn (td_impl d)) o.
+  Definition m_BT_InvokableRun (o : option BT) : option (CTX -> string -> O -> tres) := option_map (fun d => inv_fn (td_impl d)) o.
+  Definition m_parseExecutorInfo (_ : unit) (_ : option BT) : option META := Some tt.
+  Definition m_callbackEnabled (_ : option META) : bool := false.
+
+  (* the packer convTools makes for a tool of kind k, and the one made from a function alone *)
+  Definition RP_tool (k : tkind) (ti : toolimpl O) : RPm :=
+    RP_pack (match k with KStr => None | _ => Some (inv_fn ti) end)
+            (match k with KInv => None | _ => Some (str_fn ti) end).
+  Definition RP_fn (f : CTX -> string -> O -> tres) : RPm := RP_pack (Some f) None.
 
   (* what a task's cell holds after its tool returned *)
   Definition cell_t (r : tres) : res (string * option N) :=
@@ -157,29 +261,22 @@ Section Agree.
   (* runnablePacker.Invoke / .Stream: the derivations of compose/runnable.go as in Model/Tools.v *)
   Definition m_RP_Invoke (r : option RPm) (ctx : CTX) (arg : string) (opts : O) : res (string * option N) :=
     match r with
-    | Some (RP_tool KStr ti) => cell_t (invoke_by_stream (ti_str ti opts arg))
-    | Some (RP_tool _ ti) => cell_t (ti_inv ti opts arg)
-    | Some (RP_fn f) => cell_t (f ctx arg opts)
-    | None => Panic
+    | Some (RP_pack (Some f) _) => cell_t (f ctx arg opts)
+    | Some (RP_pack None (Some g)) => cell_t (invoke_by_stream (g ctx arg opts))
+    | _ => Panic
     end.
   Definition m_RP_Stream (r : option RPm) (ctx : CTX) (arg : string) (opts : O) : res (option SR * option N) :=
     match r with
-    | Some (RP_tool KInv ti) => cell_s (stream_by_invoke (ti_inv ti opts arg))
-    | Some (RP_tool _ ti) => cell_s (ti_str ti opts arg)
-    | Some (RP_fn f) => cell_s (stream_by_invoke (f ctx arg opts))
-    | None => Panic
+    | Some (RP_pack _ (Some g)) => cell_s (g ctx arg opts)
+    | Some (RP_pack (Some f) None) => cell_s (stream_by_invoke (f ctx arg opts))
+    | _ => Panic
     end.
 
   (* convTools: the converted list as a tuple (indexes: the last tool of a name; rps in list order) *)
   Definition tuple_of (tl : list (string * (tkind * toolimpl O))) : toolsTuple META RPm :=
-    mk_toolsTuple (fun name => option_map Z.of_nat (index_of tl name))
+    mk_toolsTuple (idx_list 0 tl)
                   (map (fun _ => Some tt) tl)
                   (map (fun x => Some (RP_tool (fst (snd x)) (snd (snd x)))) tl).
-  Definition m_convTools (_ : CTX) (l : option (list BT)) : res (toolsTuple META RPm) :=
-    match l with
-    | Some l => res_map tuple_of (conv_tools l)
-    | None => Panic
-    end.
 
   (* parallelRunToolCall, as Model/ToolsPar.v's theorems characterise the protocol for prog_ok: every task
      is run; a panic of a goroutine task (index >= 1) is stored in its cell as the panic error; a panic of
@@ -242,76 +339,9 @@ Section Agree.
       destruct (nth_error tl j) as [[n [k ti]]|]; reflexivity.
     Qed.
 
-    (* one iteration of the loop of genToolCallTasks, on the state [done ++ zero :: rest] at index |done| *)
-    Lemma gen_loop : forall (calls_done rest : list call) (done : list (toolCallTask META RPm)),
-      List.length done = List.length calls_done ->
-      for_up_n (List.length rest) (Z.of_nat (List.length done))
-        (fun i toolCallTasks =>
-           do x2 <- sl_get (Message_ToolCalls (msg_of schema_Assistant (calls_done ++ rest))) i;
-           let toolCall := x2 in
-           match map_get (toolsTuple_indexes (tuple_of tl)) (FunctionCall_Name (ToolCall_Function toolCall)) with
-           | None =>
-               if is_nil (ToolsNode_unknownToolHandler (node_of tl0 handler)) then Err (e_at "genToolCallTasks" 2%nat)
-               else
-                 do toolCallTasks <- sl_set toolCallTasks i
-                      (Gen.ToolNode.newUnknownToolTask TOPT META RPm tt m_newRunnablePacker
-                         (FunctionCall_Name (ToolCall_Function toolCall)) (FunctionCall_Arguments (ToolCall_Function toolCall))
-                         (ToolCall_ID toolCall) (ToolsNode_unknownToolHandler (node_of tl0 handler)));
-                 Ok toolCallTasks
-           | Some index =>
-               do x3 <- sl_get (toolsTuple_rps (tuple_of tl)) index;
-               do toolCallTasks <- sl_upd toolCallTasks i (fun x4 => set_toolCallTask_r x4 x3);
-               do x5 <- sl_get (toolsTuple_meta (tuple_of tl)) index;
-               do toolCallTasks <- sl_upd toolCallTasks i (fun x6 => set_toolCallTask_meta x6 x5);
-               do toolCallTasks <- sl_upd toolCallTasks i (fun x7 => set_toolCallTask_name x7 (FunctionCall_Name (ToolCall_Function toolCall)));
-               do toolCallTasks <- sl_upd toolCallTasks i (fun x8 => set_toolCallTask_arg x8 (FunctionCall_Arguments (ToolCall_Function toolCall)));
-               do toolCallTasks <- sl_upd toolCallTasks i (fun x9 => set_toolCallTask_callID x9 (ToolCall_ID toolCall));
-               Ok toolCallTasks
-           end)
-        (done ++ repeat zero_toolCallTask (List.length rest))
-      = res_map (fun ts => done ++ map (gtask_of tl) ts) (res_mapM (gen_task kind_of handler) rest).
-    Proof.
-      intros calls_done rest. revert calls_done.
-      induction rest as [|c rest IH]; intros calls_done done Hl.
-      - simpl. rewrite !app_nil_r. reflexivity.
-      - cbn [List.length repeat for_up_n].
-        assert (Hget : sl_get (Message_ToolCalls (msg_of schema_Assistant (calls_done ++ c :: rest))) (Z.of_nat (List.length done)) = Ok (tc_of c)).
-        { unfold msg_of. cbn [Message_ToolCalls]. rewrite map_app. cbn [map].
-          rewrite Hl. rewrite <- (map_length tc_of calls_done). apply sl_get_at. }
-        rewrite Hget. cbn [res_bind]. cbn [tc_of ToolCall_Function FunctionCall_Name FunctionCall_Arguments ToolCall_ID].
-        unfold map_get. cbn [tuple_of toolsTuple_indexes toolsTuple_rps toolsTuple_meta].
-        cbn [res_mapM]. unfold gen_task at 1. rewrite kind_of_index.
-        destruct (index_of tl (c_name c)) as [j|] eqn:Ej; cbn [option_map].
-        + destruct (index_of_bound _ _ _ _ Ej) as [[n [k ti]] Hj]. rewrite Hj. cbn [option_map fst snd].
-          rewrite !sl_get_nat, !nth_error_map, Hj. cbn [option_map res_bind fst snd].
-          rewrite !sl_upd_at. cbn [res_bind]. rewrite !sl_upd_at. cbn [res_bind].
-          rewrite !sl_upd_at. cbn [res_bind]. rewrite !sl_upd_at. cbn [res_bind].
-          rewrite !sl_upd_at. cbn [res_bind].
-          match goal with |- for_up_n _ _ ?body (done ++ ?x :: ?tail) = _ =>
-            replace (done ++ x :: tail) with ((done ++ [x]) ++ tail) by (rewrite <- app_assoc; reflexivity)
-          end.
-          replace (Z.of_nat (List.length done) + 1)%Z with (Z.of_nat (List.length (done ++ [set_toolCallTask_callID (set_toolCallTask_arg (set_toolCallTask_name (set_toolCallTask_meta (set_toolCallTask_r zero_toolCallTask (Some (RP_tool k ti))) (Some tt)) (c_name c)) (c_args c)) (c_id c)])))
-            by (rewrite app_length; simpl; lia).
-          replace (calls_done ++ c :: rest) with ((calls_done ++ [c]) ++ rest) by (rewrite <- app_assoc; reflexivity).
-          rewrite IH by (rewrite !app_length; simpl; lia).
-          destruct (res_mapM (gen_task kind_of handler) rest) as [ts|e|]; cbn [res_map res_bind]; try reflexivity.
-          rewrite <- app_assoc. cbn [map gtask_of app]. rewrite Ej, Hj. reflexivity.
-        + unfold node_of, lift_handler. cbn [ToolsNode_unknownToolHandler].
-          destruct handler as [h|]; cbn [option_map is_nil].
-          * rewrite sl_set_at. cbn [res_bind].
-            match goal with |- for_up_n _ _ ?body (done ++ ?x :: ?tail) = _ =>
-              replace (done ++ x :: tail) with ((done ++ [x]) ++ tail) by (rewrite <- app_assoc; reflexivity);
-              replace (Z.of_nat (List.length done) + 1)%Z with (Z.of_nat (List.length (done ++ [x]))) by (rewrite app_length; simpl; lia)
-            end.
-            replace (calls_done ++ c :: rest) with ((calls_done ++ [c]) ++ rest) by (rewrite <- app_assoc; reflexivity).
-            specialize (IH (calls_done ++ [c])). unfold node_of, lift_handler in IH. cbn [option_map] in IH.
-            rewrite IH by (rewrite !app_length; simpl; lia).
-            destruct (res_mapM (gen_task kind_of (Some h)) rest) as [ts|e|]; cbn [res_map res_bind]; try reflexivity.
-            rewrite <- app_assoc. reflexivity.
-          * reflexivity.
-    Qed.
-
-    (* genToolCallTasks = the model's gen_tasks, task for task *)
+    (* genToolCallTasks = the model's gen_tasks, task for task.  The loop is handled by for_up_n_fill: only what one
+       iteration does to the element it fills matters, not how the body is written (the order of the field
+       assignments, the names of the locals) *)
     Theorem gen_genToolCallTasks_agrees : forall role calls,
       g_genToolCallTasks (node_of tl0 handler) (tuple_of tl) (msg_of role calls)
       = res_map (map (gtask_of tl)) (gen_tasks kind_of handler (String.eqb role schema_Assistant) calls).
@@ -320,16 +350,29 @@ Section Agree.
       cbn [msg_of Message_Role Message_ToolCalls].
       destruct (String.eqb role schema_Assistant) eqn:Er; cbn [negb]; [|reflexivity].
       unfold sl_len. rewrite map_length.
-      destruct calls as [|c calls]; [reflexivity|].
-      replace (Z.of_nat (List.length (c :: calls)) =? 0)%Z with false by (symmetry; apply Z.eqb_neq; simpl; lia).
+      destruct calls as [|c0 calls0]; [reflexivity|]. set (calls := c0 :: calls0).
+      replace (Z.of_nat (List.length calls) =? 0)%Z with false by (symmetry; apply Z.eqb_neq; intro HZ; apply (Nat2Z.inj _ 0%nat) in HZ; discriminate).
       rewrite sl_make_len. cbn [res_bind]. rewrite for_up_len.
-      apply String.eqb_eq in Er. subst role.
-      pose proof (gen_loop [] (c :: calls) [] eq_refl) as L. cbn [app List.length] in L.
-      change (Z.of_nat 0) with 0%Z in L. unfold msg_of in L.
-      etransitivity; [|etransitivity].
-      2:{ apply (f_equal (fun r => do t <- r; Ok t)). exact L. }
-      - reflexivity.
-      - destruct (res_mapM (gen_task kind_of handler) (c :: calls)); reflexivity.
+      etransitivity.
+      { apply (f_equal (fun r => do t <- r; Ok t)).
+        apply (for_up_n_fill zero_toolCallTask (fun (_ : nat) c => res_map (gtask_of tl) (gen_task kind_of handler c)) calls)
+          with (pre := []) (done := []); [|reflexivity|reflexivity].
+        (* one iteration *)
+        intros pre c post done El Hl.
+        assert (Hget : sl_get (map tc_of calls) (Z.of_nat (List.length pre)) = Ok (tc_of c)).
+        { rewrite El, map_app. cbn [map]. rewrite <- (map_length tc_of pre). apply sl_get_at. }
+        rewrite Hget. cbn [res_bind tc_of ToolCall_Function FunctionCall_Name FunctionCall_Arguments ToolCall_ID].
+        cbn [tuple_of toolsTuple_indexes toolsTuple_rps toolsTuple_meta]. rewrite idx_list_get.
+        unfold gen_task. rewrite kind_of_index. rewrite <- Hl.
+        destruct (index_of tl (c_name c)) as [j|] eqn:Ej; cbn [option_map Nat.add].
+        - destruct (index_of_bound _ _ _ _ Ej) as [[n [k ti]] Hj]. rewrite Hj. cbn [option_map fst snd res_map res_bind].
+          rewrite !sl_get_nat, !nth_error_map, Hj. cbn [option_map res_bind fst snd].
+          repeat (rewrite sl_upd_at; cbn [res_bind]).
+          cbn [gtask_of]. rewrite Ej, Hj. reflexivity.
+        - unfold node_of, lift_handler. cbn [ToolsNode_unknownToolHandler].
+          destruct handler as [h|]; cbn [option_map is_nil res_map res_bind]; [|reflexivity].
+          rewrite sl_set_at. reflexivity. }
+      rewrite mapM_idx_const. destruct (res_mapM (gen_task kind_of handler) calls); reflexivity.
     Qed.
   End Tasks.
 
@@ -392,11 +435,11 @@ Section Agree.
       - destruct (wf_lookup k c Hwf) as [j [n [ti [Ej [Hj Hl]]]]].
         cbn [gtask_of toolCallTask_r toolCallTask_arg toolCallTask_callID]. rewrite Ej, Hj. cbn [fst snd].
         unfold exec_invoke, inv, str, ts. cbn [ts_inv ts_str toolset_of_conv]. rewrite Hl.
-        destruct k; cbn [m_RP_Invoke].
+        destruct k; unfold RP_tool, inv_fn, str_fn; cbn [m_RP_Invoke].
         + destruct (ti_inv ti opts (c_args c)); reflexivity.
         + destruct (invoke_by_stream (ti_str ti opts (c_args c))); reflexivity.
         + destruct (ti_inv ti opts (c_args c)); reflexivity.
-      - cbn [gtask_of toolCallTask_r toolCallTask_arg toolCallTask_callID m_RP_Invoke exec_invoke].
+      - cbn [gtask_of toolCallTask_r toolCallTask_arg toolCallTask_callID exec_invoke]. unfold RP_fn. cbn [m_RP_Invoke].
         destruct (h (c_name c) (c_args c)); reflexivity.
     Qed.
 
@@ -413,11 +456,11 @@ Section Agree.
       - destruct (wf_lookup k c Hwf) as [j [n [ti [Ej [Hj Hl]]]]].
         cbn [gtask_of toolCallTask_r toolCallTask_arg toolCallTask_callID]. rewrite Ej, Hj. cbn [fst snd].
         unfold exec_stream, inv, str, ts. cbn [ts_inv ts_str toolset_of_conv]. rewrite Hl.
-        destruct k; cbn [m_RP_Stream].
+        destruct k; unfold RP_tool, inv_fn, str_fn; cbn [m_RP_Stream].
         + destruct (ti_inv ti opts (c_args c)); reflexivity.
         + destruct (ti_str ti opts (c_args c)); reflexivity.
         + destruct (ti_str ti opts (c_args c)); reflexivity.
-      - cbn [gtask_of toolCallTask_r toolCallTask_arg toolCallTask_callID m_RP_Stream exec_stream].
+      - cbn [gtask_of toolCallTask_r toolCallTask_arg toolCallTask_callID exec_stream]. unfold RP_fn. cbn [m_RP_Stream].
         destruct (h (c_name c) (c_args c)); reflexivity.
     Qed.
 
@@ -460,10 +503,10 @@ Section Agree.
         rewrite <- Hl. rewrite sl_set_at. cbn [res_bind].
         match goal with |- for_up_n _ _ _ (done ++ ?x :: ?tail) = _ =>
           replace (done ++ x :: tail) with ((done ++ [x]) ++ tail) by (rewrite <- app_assoc; reflexivity);
-          replace (Z.of_nat (List.length done) + 1)%Z with (Z.of_nat (List.length (done ++ [x]))) by (rewrite app_length; simpl; lia)
+          replace (Z.of_nat (List.length done) + 1)%Z with (Z.of_nat (List.length (done ++ [x]))) by (symmetry; apply zn_snoc)
         end.
         replace (tdone ++ t :: rest) with ((tdone ++ [t]) ++ rest) by (rewrite <- app_assoc; reflexivity).
-        rewrite IH by (rewrite !app_length; simpl; lia).
+        rewrite IH by (apply len_snoc; assumption).
         destruct (scan_cells rest); cbn [res_map res_bind]; try reflexivity.
         rewrite <- app_assoc. reflexivity.
     Qed.
@@ -573,10 +616,10 @@ Section Agree.
         rewrite <- Hl. rewrite sl_set_at. cbn [res_bind].
         match goal with |- for_up_n _ _ _ (done ++ ?x :: ?tail) = _ =>
           replace (done ++ x :: tail) with ((done ++ [x]) ++ tail) by (rewrite <- app_assoc; reflexivity);
-          replace (Z.of_nat (List.length done) + 1)%Z with (Z.of_nat (List.length (done ++ [x]))) by (rewrite app_length; simpl; lia)
+          replace (Z.of_nat (List.length done) + 1)%Z with (Z.of_nat (List.length (done ++ [x]))) by (symmetry; apply zn_snoc)
         end.
         replace (tdone ++ t :: rest) with ((tdone ++ [t]) ++ rest) by (rewrite <- app_assoc; reflexivity).
-        rewrite IH by (rewrite !app_length; simpl; lia).
+        rewrite IH by (apply len_snoc; assumption).
         rewrite app_length. cbn [List.length]. rewrite Nat.add_1_r.
         destruct (scan_cells_s n (S (List.length done)) rest); cbn [res_map res_bind]; try reflexivity.
         rewrite <- app_assoc. reflexivity.
@@ -625,8 +668,109 @@ Section Agree.
     Qed.
   End Run.
 
+
+  (* ---- convTools / NewToolNode ---- *)
+  Notation g_convTools := (Gen.ToolNode.convTools BT TOPT META RPm m_newRunnablePacker m_BT_Info m_assert_StreamableTool
+                             m_assert_InvokableTool m_BT_StreamableRun m_BT_InvokableRun m_parseExecutorInfo m_callbackEnabled).
+  Notation g_NewToolNode := (Gen.ToolNode.NewToolNode BT TOPT META RPm m_newRunnablePacker m_BT_Info m_assert_StreamableTool
+                               m_assert_InvokableTool m_BT_StreamableRun m_BT_InvokableRun m_parseExecutorInfo m_callbackEnabled).
+
+  Definition rp_of (x : string * (tkind * toolimpl O)) : option RPm := Some (RP_tool (fst (snd x)) (snd (snd x))).
+
+  Lemma conv_loop : forall ctx (rest pre : list BT) (done : list (string * (tkind * toolimpl O))),
+    List.length done = List.length pre ->
+    for_up_n (List.length rest) (Z.of_nat (List.length pre))
+      (fun idx ret =>
+         do bt <- sl_get (pre ++ rest) idx;
+         do tl <- m_BT_Info bt ctx;
+         let toolName := ToolInfo_Name tl in
+         let st : option BT := None in
+         let it : option BT := None in
+         let invokable : option (CTX -> string -> O -> tres) := None in
+         let streamable : option (CTX -> string -> O -> sres) := None in
+         let ok : bool := false in
+         let meta : option META := None in
+         let st := m_assert_StreamableTool bt in
+         let ok := negb (is_nil st) in
+         do streamable <- (if ok then let streamable := m_BT_StreamableRun st in Ok streamable else Ok streamable);
+         let it := m_assert_InvokableTool bt in
+         let ok := negb (is_nil it) in
+         do invokable <- (if ok then let invokable := m_BT_InvokableRun it in Ok invokable else Ok invokable);
+         if is_nil st && is_nil it then Err (e_at "convTools" 0%nat)
+         else
+           do meta <- (if negb (is_nil st)
+                       then let meta := m_parseExecutorInfo components_ComponentOfTool st in Ok meta
+                       else let meta := m_parseExecutorInfo components_ComponentOfTool it in Ok meta);
+           let ret := set_toolsTuple_indexes ret (map_set (toolsTuple_indexes ret) toolName idx) in
+           do x3 <- sl_set (toolsTuple_meta ret) idx meta;
+           let ret := set_toolsTuple_meta ret x3 in
+           do x4 <- sl_set (toolsTuple_rps ret) idx
+                      (m_newRunnablePacker invokable streamable None None (negb (m_callbackEnabled meta)));
+           let ret := set_toolsTuple_rps ret x4 in
+           Ok ret)
+      (mk_toolsTuple (idx_list 0 done)
+                     (map (fun _ => Some tt) done ++ repeat None (List.length rest))
+                     (map rp_of done ++ repeat None (List.length rest)))
+    = res_map (fun tl' => tuple_of (done ++ tl')) (conv_tools rest).
+  Proof.
+    intros ctx rest. induction rest as [|d rest IH]; intros pre done Hl.
+    - simpl. rewrite !app_nil_r. reflexivity.
+    - cbn [List.length repeat conv_tools].
+      replace (pre ++ d :: rest) with ((pre ++ [d]) ++ rest) by (rewrite <- app_assoc; reflexivity).
+      match goal with |- for_up_n _ _ ?b _ = _ => set (B := b) end.
+      cbn [for_up_n].
+      assert (Hget : sl_get ((pre ++ [d]) ++ rest) (Z.of_nat (List.length pre)) = Ok d)
+        by (rewrite <- app_assoc; apply sl_get_at).
+      unfold B at 1. cbv beta. rewrite Hget. cbn [res_bind]. unfold m_BT_Info.
+      destruct (td_info_ok d); cbn [negb res_bind]; [|reflexivity].
+      cbn [ToolInfo_Name]. unfold m_assert_StreamableTool, m_assert_InvokableTool.
+      assert (Hm : List.length (map (fun _ : string * (tkind * toolimpl O) => Some tt) done) = List.length pre) by (rewrite map_length; exact Hl).
+      assert (Hr : List.length (map rp_of done) = List.length pre) by (rewrite map_length; exact Hl).
+      destruct (td_kind d) as [[| |]|]; cbn [is_nil negb andb res_bind m_BT_StreamableRun m_BT_InvokableRun option_map];
+        try reflexivity;
+        cbn [set_toolsTuple_indexes set_toolsTuple_meta set_toolsTuple_rps toolsTuple_indexes toolsTuple_meta toolsTuple_rps];
+        rewrite <- Hm at 1; rewrite sl_set_at; cbn [res_bind];
+        rewrite <- Hr at 1; rewrite sl_set_at; cbn [res_bind];
+        (replace (Z.of_nat (List.length pre) + 1)%Z with (Z.of_nat (List.length (pre ++ [d]))) by (symmetry; apply zn_snoc));
+        unfold set_toolsTuple_rps, set_toolsTuple_meta, set_toolsTuple_indexes;
+        cbn [toolsTuple_indexes toolsTuple_meta toolsTuple_rps];
+        unfold map_set, m_newRunnablePacker, m_callbackEnabled, m_parseExecutorInfo; cbn [negb];
+        match goal with |- for_up_n _ _ _ ?st = res_map _ (do rest0 <- _; Ok (?x :: rest0)) =>
+          replace st with (mk_toolsTuple (idx_list 0 (done ++ [x]))
+                             (map (fun _ : string * (tkind * toolimpl O) => Some tt) (done ++ [x]) ++ repeat None (List.length rest))
+                             (map rp_of (done ++ [x]) ++ repeat None (List.length rest)))
+            by (rewrite !map_app, idx_list_snoc, <- !app_assoc; cbn [map app rp_of fst snd Nat.add]; rewrite Hl; reflexivity);
+          subst B; etransitivity; [exact (IH (pre ++ [d]) (done ++ [x]) (len_snoc _ _ _ _ _ _ Hl))|]
+        end;
+        destruct (conv_tools rest) as [tl'|e|]; cbn [res_map res_bind]; try reflexivity;
+        rewrite <- app_assoc; reflexivity.
+  Qed.
+
+  Theorem gen_convTools_agrees : forall ctx (l : list BT),
+    g_convTools ctx l = res_map tuple_of (conv_tools l).
+  Proof.
+    intros ctx l. unfold Gen.ToolNode.convTools. unfold sl_len. rewrite !sl_make_len. cbn [res_bind].
+    rewrite for_up_len.
+    cbn [set_toolsTuple_indexes set_toolsTuple_meta set_toolsTuple_rps toolsTuple_indexes toolsTuple_meta toolsTuple_rps zero_toolsTuple].
+    pose proof (conv_loop ctx l [] [] eq_refl) as L. cbn [app List.length map idx_list] in L. change (Z.of_nat 0) with 0%Z in L.
+    unfold map_empty.
+    etransitivity; [|etransitivity].
+    2:{ apply (f_equal (fun r => do t <- r; Ok t)). exact L. }
+    - reflexivity.
+    - destruct (conv_tools l); reflexivity.
+  Qed.
+
+  (* NewToolNode: the node of the converted list, or the error of the first tool convTools cannot take *)
+  Lemma gen_NewToolNode_agrees : forall ctx (cfg : list BT) handler,
+    g_NewToolNode ctx (mk_ToolsNodeConfig cfg (lift_handler handler)) = res_map (fun tl => node_of tl handler) (conv_tools cfg).
+  Proof.
+    intros ctx cfg handler. unfold Gen.ToolNode.NewToolNode. cbn [ToolsNodeConfig_Tools ToolsNodeConfig_UnknownToolsHandler].
+    rewrite gen_convTools_agrees. destruct (conv_tools cfg); reflexivity.
+  Qed.
+
   (* ---- ToolsNode.Invoke ---- *)
-  Notation g_Invoke := (Gen.ToolNode.Invoke BT TOPT META RPm tt m_newRunnablePacker m_RP_Invoke m_convTools m_parallel).
+  Notation g_Invoke := (Gen.ToolNode.Invoke BT TOPT META RPm tt m_newRunnablePacker m_BT_Info m_assert_StreamableTool
+                          m_assert_InvokableTool m_BT_StreamableRun m_BT_InvokableRun m_parseExecutorInfo m_callbackEnabled m_RP_Invoke m_parallel).
 
   Lemma invoke_tail : forall tl tl0 handler opts pi role calls ctx,
     covers pi (List.length calls) ->
@@ -654,7 +798,7 @@ Section Agree.
   Qed.
 
   (* NewToolNode(cfg) succeeded with the converted list cfg_tl; then Invoke with the option list nopts *)
-  Theorem gen_invoke_agrees : forall handler (cfg : list BT) cfg_tl (nopts : list (nodeopt P BT)) pi role calls ctx,
+  Lemma gen_node_invoke_agrees : forall handler (cfg : list BT) cfg_tl (nopts : list (nodeopt P BT)) pi role calls ctx,
     conv_tools cfg = Ok cfg_tl ->
     covers pi (List.length calls) ->
     g_Invoke (node_of cfg_tl handler) ctx (msg_of role calls) (map (gen_opt P BT) nopts)
@@ -665,7 +809,7 @@ Section Agree.
     cbn [toolsNodeOptions_ToolList toolsNodeOptions_ToolOptions].
     unfold call_invoke, node_invoke. rewrite Hcfg. cbn [res_bind].
     destruct (fst (get_node_opts nopts)) as [l|] eqn:El; cbn [is_nil negb conv_call_list].
-    - unfold m_convTools. destruct (conv_tools l) as [tl'|e|] eqn:Ec; cbn [res_map res_bind]; try reflexivity.
+    - cbn [slice_of]. rewrite gen_convTools_agrees. destruct (conv_tools l) as [tl'|e|] eqn:Ec; cbn [res_map res_bind]; try reflexivity.
       unfold tools_invoke_with. cbn [eff_tools co_list co_opts node_of ToolsNode_tuple].
       apply (invoke_tail tl' cfg_tl handler (snd (get_node_opts nopts)) pi role calls ctx Hc).
     - unfold tools_invoke_with. cbn [eff_tools co_list co_opts node_of ToolsNode_tuple res_bind].
@@ -673,7 +817,8 @@ Section Agree.
   Qed.
 
   (* ---- ToolsNode.Stream ---- *)
-  Notation g_Stream := (Gen.ToolNode.Stream BT TOPT META RPm tt m_newRunnablePacker m_RP_Stream m_convTools m_parallel).
+  Notation g_Stream := (Gen.ToolNode.Stream BT TOPT META RPm tt m_newRunnablePacker m_BT_Info m_assert_StreamableTool
+                          m_assert_InvokableTool m_BT_StreamableRun m_BT_InvokableRun m_parseExecutorInfo m_callbackEnabled m_RP_Stream m_parallel).
 
   Lemma stream_tail : forall tl tl0 handler opts pi role calls ctx,
     covers pi (List.length calls) ->
@@ -703,7 +848,7 @@ Section Agree.
     destruct (scan_cells_s (Z.of_nat (List.length calls)) 0 ts'); reflexivity.
   Qed.
 
-  Theorem gen_stream_agrees : forall handler (cfg : list BT) cfg_tl (nopts : list (nodeopt P BT)) pi role calls ctx,
+  Lemma gen_node_stream_agrees : forall handler (cfg : list BT) cfg_tl (nopts : list (nodeopt P BT)) pi role calls ctx,
     conv_tools cfg = Ok cfg_tl ->
     covers pi (List.length calls) ->
     g_Stream (node_of cfg_tl handler) ctx (msg_of role calls) (map (gen_opt P BT) nopts)
@@ -715,11 +860,41 @@ Section Agree.
     cbn [toolsNodeOptions_ToolList toolsNodeOptions_ToolOptions].
     unfold call_stream_open, node_stream_open. rewrite Hcfg. cbn [res_bind].
     destruct (fst (get_node_opts nopts)) as [l|] eqn:El; cbn [is_nil negb conv_call_list].
-    - unfold m_convTools. destruct (conv_tools l) as [tl'|e|] eqn:Ec; cbn [res_map res_bind]; try reflexivity.
+    - cbn [slice_of]. rewrite gen_convTools_agrees. destruct (conv_tools l) as [tl'|e|] eqn:Ec; cbn [res_map res_bind]; try reflexivity.
       unfold tools_stream_open_with. cbn [eff_tools co_list co_opts node_of ToolsNode_tuple].
       apply (stream_tail tl' cfg_tl handler (snd (get_node_opts nopts)) pi role calls ctx Hc).
     - unfold tools_stream_open_with. cbn [eff_tools co_list co_opts node_of ToolsNode_tuple res_bind].
       apply (stream_tail cfg_tl cfg_tl handler (snd (get_node_opts nopts)) pi role calls ctx Hc).
+  Qed.
+
+  (* end to end: NewToolNode on the configuration, then one Invoke / Stream with the call's option list — the generated
+     code IS call_invoke / call_stream_open (what the correspondence evaluates and the tools_call_* theorems are about),
+     for every tool list, handler, option list, message and completion order *)
+  Theorem gen_invoke_agrees : forall handler (cfg : list BT) (nopts : list (nodeopt P BT)) pi role calls ctx ctx',
+    covers pi (List.length calls) ->
+    (do tn <- g_NewToolNode ctx (mk_ToolsNodeConfig cfg (lift_handler handler));
+     g_Invoke tn ctx' (msg_of role calls) (map (gen_opt P BT) nopts))
+    = res_map (map Some) (call_invoke handler cfg nopts pi (String.eqb role schema_Assistant) calls).
+  Proof.
+    intros handler cfg nopts pi role calls ctx ctx' Hc. rewrite gen_NewToolNode_agrees.
+    destruct (conv_tools cfg) as [cfg_tl|e|] eqn:Ecfg; cbn [res_map res_bind].
+    - apply gen_node_invoke_agrees; assumption.
+    - unfold call_invoke, node_invoke. rewrite Ecfg. reflexivity.
+    - unfold call_invoke, node_invoke. rewrite Ecfg. reflexivity.
+  Qed.
+
+  Theorem gen_stream_agrees : forall handler (cfg : list BT) (nopts : list (nodeopt P BT)) pi role calls ctx ctx',
+    covers pi (List.length calls) ->
+    (do tn <- g_NewToolNode ctx (mk_ToolsNodeConfig cfg (lift_handler handler));
+     g_Stream tn ctx' (msg_of role calls) (map (gen_opt P BT) nopts))
+    = res_map (sources_of (Z.of_nat (List.length calls)) 0)
+        (call_stream_open handler cfg nopts pi (String.eqb role schema_Assistant) calls).
+  Proof.
+    intros handler cfg nopts pi role calls ctx ctx' Hc. rewrite gen_NewToolNode_agrees.
+    destruct (conv_tools cfg) as [cfg_tl|e|] eqn:Ecfg; cbn [res_map res_bind].
+    - apply gen_node_stream_agrees; assumption.
+    - unfold call_stream_open, node_stream_open. rewrite Ecfg. reflexivity.
+    - unfold call_stream_open, node_stream_open. rewrite Ecfg. reflexivity.
   Qed.
 
   (* what a source delivers: every chunk s of call i's tool as the list of n entries with only entry i set,
@@ -728,8 +903,8 @@ Section Agree.
     conv (Z.of_nat n) (Z.of_nat i) callID s = Ok (set_nth i (Some (s, callID)) (repeat None n)).
   Proof.
     intros n i callID s Hi. unfold conv. rewrite sl_make_len. cbn [res_bind].
-    unfold sl_set. replace (Z.of_nat i <? 0)%Z with false by (symmetry; apply Z.ltb_ge; lia).
-    rewrite Nat2Z.id, repeat_length. replace (Nat.ltb i n) with true by (symmetry; apply Nat.ltb_lt; lia).
+    unfold sl_set. rewrite zn_not_neg.
+    rewrite Nat2Z.id, repeat_length. replace (Nat.ltb i n) with true by (symmetry; apply Nat.ltb_lt; exact Hi).
     reflexivity.
   Qed.
 End Agree.
@@ -751,22 +926,195 @@ Theorem gen_parallel_shape_agrees :
   /\ Gen.ToolNode.par_options_handed_on = true.
 Proof. repeat split; reflexivity. Qed.
 
-(* non-vacuity: the generated functions compute — two calls, a streamable-only and an invokable tool, a tool
-   option; the second call unknown without / with a handler; a goroutine task that panics *)
+(* ---- parallelRunToolCall: the protocol of Model/ToolsPar.v run on the generated task functions ------------- *)
+Section ParLink.
+  Variable P : Type.
+  Notation O := (list (topt P)).
+  Notation gtask := (toolCallTask unit (RPm P)).
+  Variable tl : list (string * (tkind * toolimpl O)).
+  Variable opts : O.
+  Variable ctx : CTX.
+  Notation g := (gtask_of P tl).
+
+  (* generic in what a task's execution yields besides the error (Invoke: the output string; Stream: the stream) *)
+  Section Generic.
+    Variable C : Type.
+    Variable c0 : C.                                         (* what the cell holds before the task has run *)
+    Variable rp : option (RPm P) -> CTX -> string -> O -> res (C * option N).
+    Variable proj : gtask -> C.
+    Variable store : gtask -> C -> gtask.
+    Variable run : CTX -> gtask -> O -> res gtask.
+
+    Definition cell : Type := (C * option N)%type.
+    (* what the execution of task t computes before it is stored in the task's cell: the two results of
+       task.r.Invoke / task.r.Stream (ctx carrying the call id, task.arg, opts...) *)
+    Definition cell_exec (_ : nat) (t : task) : res cell :=
+      rp (toolCallTask_r (g t)) (Some (toolCallTask_callID (g t))) (toolCallTask_arg (g t)) opts.
+    Definition cell_panics (r : res cell) : bool := match r with Panic => true | _ => false end.
+    (* what the recover handler leaves in the cell: nothing but the panic error *)
+    Definition cell_perr : res cell := Ok (c0, Some E_PANIC).
+    Definition cell_of (t : gtask) : cell := (proj t, toolCallTask_err t).
+
+    Hypothesis run_is_cell : forall t,
+      run ctx (g t) opts =
+      match cell_exec 0 t with
+      | Ok (o, e) => Ok (set_toolCallTask_err (store (g t) o) e)
+      | Err e => Err e
+      | Panic => Panic
+      end.
+    Hypothesis rp_total : forall r c a o e, rp r c a o <> Err e.
+    Hypothesis proj_store : forall t o e, proj (set_toolCallTask_err (store t o) e) = o.
+    Hypothesis proj_err : forall t e, proj (set_toolCallTask_err (g t) e) = c0.
+
+    Fixpoint seen_cells (seen : list (option (res cell))) : res (list cell) :=
+      match seen with
+      | [] => Ok []
+      | Some (Ok c) :: r => do cs <- seen_cells r; Ok (c :: cs)
+      | Some (Err e) :: _ => Err e
+      | _ :: _ => Panic
+      end.
+
+    Lemma recovered_is_cell : forall t,
+      recovered P run ctx opts (g t) =
+      match cell_exec 0 t with
+      | Ok (o, e) => set_toolCallTask_err (store (g t) o) e
+      | Err e => set_toolCallTask_err (g t) (Some e)
+      | Panic => set_toolCallTask_err (g t) (Some E_PANIC)
+      end.
+    Proof.
+      intros t. unfold recovered. rewrite (run_is_cell t).
+      destruct (cell_exec 0 t) as [[o e]|e|]; reflexivity.
+    Qed.
+
+    Lemma recovered_cells : forall rest i,
+      seen_cells (map (fun p : nat * task => Some (rec_at (res cell) cell_panics cell_perr (fst p) (cell_exec (fst p) (snd p))))
+                      (combine (seq (S i) (List.length rest)) rest))
+      = Ok (map cell_of (map (recovered P run ctx opts) (map g rest))).
+    Proof.
+      induction rest as [|t rest IH]; intros i; [reflexivity|].
+      cbn [List.length seq combine map fst snd].
+      change (seen_cells (?x :: ?r)) with (match x with Some (Ok c) => do cs <- seen_cells r; Ok (c :: cs) | Some (Err e) => Err e | _ => Panic end).
+      rewrite (IH (S i)).
+      rewrite (recovered_is_cell t). cbn [rec_at]. unfold rec.
+      change (cell_exec (S i) t) with (cell_exec 0 t).
+      destruct (cell_exec 0 t) as [[o e]|e|] eqn:E; cbn [cell_panics].
+      - cbn [res_bind]. unfold cell_of. rewrite proj_store. reflexivity.
+      - exfalso. unfold cell_exec in E. eapply rp_total; exact E.
+      - unfold cell_perr. cbn [res_bind]. unfold cell_of. rewrite proj_err. reflexivity.
+    Qed.
+
+    Lemma parallel_is_protocol : forall tasks sch st,
+      tasks <> [] ->
+      prun cell_exec cell_panics cell_perr Gen.ToolNode.par_goroutine_prog tasks sch (pinit tasks) = Some st ->
+      p_crash st = false
+      /\ match p_main st with
+         | MEnd => exists seen, p_seen st = Some seen
+                   /\ res_map (map cell_of) (m_parallel P ctx run (map g tasks) opts) = seen_cells seen
+         | MPanic => m_parallel P ctx run (map g tasks) opts = Panic
+         | _ => True
+         end.
+    Proof.
+      intros tasks sch st Hne Hrun.
+      change Gen.ToolNode.par_goroutine_prog with prog_ok in Hrun.
+      destruct (par_safe _ _ _ _ tasks sch st Hne Hrun) as [Hc Hm]. split; [exact Hc|].
+      destruct (p_main st); auto.
+      - exists (map (fun p : nat * task => Some (rec_at (res cell) cell_panics cell_perr (fst p) (cell_exec (fst p) (snd p))))
+                    (combine (seq 0 (List.length tasks)) tasks)).
+        split; [exact Hm|].
+        destruct tasks as [|t0 rest]; [congruence|].
+        cbn [map m_parallel List.length seq combine fst snd rec_at].
+        change (seen_cells (?x :: ?r)) with (match x with Some (Ok c) => do cs <- seen_cells r; Ok (c :: cs) | Some (Err e) => Err e | _ => Panic end).
+        rewrite recovered_cells. rewrite (run_is_cell t0).
+        destruct (cell_exec 0 t0) as [[o e]|e|] eqn:E; cbn [res_bind res_map].
+        + cbn [map]. unfold cell_of at 1. rewrite proj_store. reflexivity.
+        + exfalso. unfold cell_exec in E. eapply rp_total; exact E.
+        + reflexivity.
+      - destruct Hm as [t0 [ts [E Hp]]]. subst tasks. cbn [map m_parallel].
+        rewrite (run_is_cell t0). destruct (cell_exec 0 t0) as [[o e]|e|]; try discriminate. reflexivity.
+    Qed.
+  End Generic.
+
+  Notation g_runInvoke := (Gen.ToolNode.runToolCallTaskByInvoke (topt P) unit (RPm P) (m_RP_Invoke P)).
+  Notation g_runStream := (Gen.ToolNode.runToolCallTaskByStream (topt P) unit (RPm P) (m_RP_Stream P)).
+
+  Lemma cell_t_total : forall r e, cell_t r <> Err e.
+  Proof. destruct r; discriminate. Qed.
+  Lemma cell_s_total : forall r e, cell_s r <> Err e.
+  Proof. destruct r; discriminate. Qed.
+
+  (* the protocol, run on what the generated runToolCallTaskByInvoke / ByStream compute, with the goroutine program
+     read from the source: whatever the schedule, once the caller is through, the cells the scan reads are those of
+     the tasks m_parallel returns — the semantics Gen.Invoke / Gen.Stream are instantiated with in gen_invoke_agrees /
+     gen_stream_agrees; if the inline task panicked m_parallel panics; no goroutine ends while panicking *)
+  Theorem gen_parallel_invoke_is_protocol : forall tasks sch st,
+    tasks <> [] ->
+    prun (cell_exec string (m_RP_Invoke P)) (cell_panics string) (cell_perr string "") Gen.ToolNode.par_goroutine_prog tasks sch (pinit tasks) = Some st ->
+    p_crash st = false
+    /\ match p_main st with
+       | MEnd => exists seen, p_seen st = Some seen
+                 /\ res_map (map (cell_of string (@toolCallTask_output _ _))) (m_parallel P ctx g_runInvoke (map g tasks) opts) = seen_cells string seen
+       | MPanic => m_parallel P ctx g_runInvoke (map g tasks) opts = Panic
+       | _ => True
+       end.
+  Proof.
+    apply (parallel_is_protocol string "" (m_RP_Invoke P) (@toolCallTask_output _ _) (@set_toolCallTask_output _ _) g_runInvoke).
+    - intros t. unfold Gen.ToolNode.runToolCallTaskByInvoke, cell_exec.
+      unfold callbacks_ReuseHandlers, setToolCallInfo. cbn [toolCallInfo_toolCallID set_toolCallInfo_toolCallID].
+      destruct (m_RP_Invoke P (toolCallTask_r (g t)) (Some (toolCallTask_callID (g t))) (toolCallTask_arg (g t)) opts) as [[o e]|e|]; reflexivity.
+    - intros r c a o e. unfold m_RP_Invoke. destruct r as [[[i|] [s|]]|]; try discriminate; apply cell_t_total.
+    - reflexivity.
+    - intros t e. destruct t; reflexivity.
+  Qed.
+
+  Theorem gen_parallel_stream_is_protocol : forall tasks sch st,
+    tasks <> [] ->
+    prun (cell_exec (option SR) (m_RP_Stream P)) (cell_panics (option SR)) (cell_perr (option SR) None) Gen.ToolNode.par_goroutine_prog tasks sch (pinit tasks) = Some st ->
+    p_crash st = false
+    /\ match p_main st with
+       | MEnd => exists seen, p_seen st = Some seen
+                 /\ res_map (map (cell_of (option SR) (@toolCallTask_sOutput _ _))) (m_parallel P ctx g_runStream (map g tasks) opts) = seen_cells (option SR) seen
+       | MPanic => m_parallel P ctx g_runStream (map g tasks) opts = Panic
+       | _ => True
+       end.
+  Proof.
+    apply (parallel_is_protocol (option SR) None (m_RP_Stream P) (@toolCallTask_sOutput _ _) (@set_toolCallTask_sOutput _ _) g_runStream).
+    - intros t. unfold Gen.ToolNode.runToolCallTaskByStream, cell_exec.
+      unfold callbacks_ReuseHandlers, setToolCallInfo. cbn [toolCallInfo_toolCallID set_toolCallInfo_toolCallID].
+      destruct (m_RP_Stream P (toolCallTask_r (g t)) (Some (toolCallTask_callID (g t))) (toolCallTask_arg (g t)) opts) as [[o e]|e|]; reflexivity.
+    - intros r c a o e. unfold m_RP_Stream. destruct r as [[[i|] [s|]]|]; try discriminate; apply cell_s_total.
+    - reflexivity.
+    - intros t e. destruct t; reflexivity.
+  Qed.
+End ParLink.
+
+(* non-vacuity: the generated functions compute — NewToolNode, then two calls (a streamable-only and an invokable tool,
+   a tool option); the second call unknown without / with a handler; a goroutine task that panics; the inline task
+   panicking; a tool NewToolNode cannot take *)
 Example gen_invoke_nonvacuous :
   let impl := mkTI (fun (os : list (topt string)) a => if String.eqb a "boom" then TPanic else TOk (concat_strings (impl_specific 1%N os) ++ a)%string)
                    (fun (os : list (topt string)) a => SOk [a; "!"] None) in
-  let cfg_tl := [("ta", (KInv, impl)); ("tb", (KStr, impl))] in
+  let cfg := [mkTD true "ta" (Some KInv) impl; mkTD true "tb" (Some KStr) impl] in
   let opts := map (gen_opt string (tooldecl (list (topt string)))) [ToolsOpts.WithToolOption [(1%N, "<o>")]] in
-  let invoke h calls := Gen.ToolNode.Invoke _ _ _ _ tt (m_newRunnablePacker string) (m_RP_Invoke string) (m_convTools string) (m_parallel string)
-                          (node_of string cfg_tl h) None (msg_of "assistant" calls) opts in
-  let stream h calls := Gen.ToolNode.Stream _ _ _ _ tt (m_newRunnablePacker string) (m_RP_Stream string) (m_convTools string) (m_parallel string)
-                          (node_of string cfg_tl h) None (msg_of "assistant" calls) opts in
+  let new cfg h := Gen.ToolNode.NewToolNode _ _ _ _ (m_newRunnablePacker string) (m_BT_Info string) (m_assert_StreamableTool string)
+                     (m_assert_InvokableTool string) (m_BT_StreamableRun string) (m_BT_InvokableRun string) (m_parseExecutorInfo string)
+                     m_callbackEnabled None (mk_ToolsNodeConfig cfg (lift_handler h)) in
+  let invoke h calls :=
+    do tn <- new cfg h;
+    Gen.ToolNode.Invoke _ _ _ _ tt (m_newRunnablePacker string) (m_BT_Info string) (m_assert_StreamableTool string)
+      (m_assert_InvokableTool string) (m_BT_StreamableRun string) (m_BT_InvokableRun string) (m_parseExecutorInfo string)
+      m_callbackEnabled (m_RP_Invoke string) (m_parallel string) tn None (msg_of "assistant" calls) opts in
+  let stream h calls :=
+    do tn <- new cfg h;
+    Gen.ToolNode.Stream _ _ _ _ tt (m_newRunnablePacker string) (m_BT_Info string) (m_assert_StreamableTool string)
+      (m_assert_InvokableTool string) (m_BT_StreamableRun string) (m_BT_InvokableRun string) (m_parseExecutorInfo string)
+      m_callbackEnabled (m_RP_Stream string) (m_parallel string) tn None (msg_of "assistant" calls) opts in
   invoke None [mkCall "c0" "tb" "x"; mkCall "c1" "ta" "y"] = Ok [Some ("x!", "c0"); Some ("<o>y", "c1")]
   /\ invoke None [mkCall "c0" "tb" "x"; mkCall "c1" "zz" "y"] = Err E_UNKNOWN
   /\ invoke (Some (fun n a => TOk ("unk:" ++ n)%string)) [mkCall "c0" "tb" "x"; mkCall "c1" "zz" "y"] = Ok [Some ("x!", "c0"); Some ("unk:zz", "c1")]
   /\ invoke None [mkCall "c0" "tb" "x"; mkCall "c1" "ta" "boom"] = Err E_PANIC
   /\ invoke None [mkCall "c0" "ta" "boom"; mkCall "c1" "ta" "y"] = Panic
   /\ stream None [mkCall "c0" "tb" "x"; mkCall "c1" "ta" "y"]
-     = Ok [Some ([Ok [Some ("x", "c0"); None]; Ok [Some ("!", "c0"); None]], None); Some ([Ok [None; Some ("<o>y", "c1")]], None)].
-Proof. vm_compute. repeat split; reflexivity. Qed.
+     = Ok [Some ([Ok [Some ("x", "c0"); None]; Ok [Some ("!", "c0"); None]], None); Some ([Ok [None; Some ("<o>y", "c1")]], None)]
+  /\ (exists e, new [mkTD true "ta" (Some KInv) impl; mkTD true "tb" None impl] None = Err e)
+  /\ (exists e, new [mkTD false "ta" (Some KInv) impl] None = Err e).
+Proof. vm_compute. repeat split; try reflexivity; eexists; reflexivity. Qed.
